@@ -74,8 +74,13 @@ def replay(recs):
                 long_axes = [(f"axis-long-{np.dtype(dt).name}", g.Point(np.array([k * x for x in r["u"]] + [1], dtype=dt)))
                              for dt, k in ((np.int16, 120), (np.int32, 30000), (np.int64, 2_000_000_000), (np.uint16, 200))
                              if not (np.issubdtype(dt, np.unsignedinteger) and min(r["u"]) < 0)]
-                for name, axis in [("axis", g.Point(*r["u"])), ("axis-scaled", g.Point(np.array([2 * x for x in r["u"]] + [2])))] + long_axes:
+                float_axes = [("axis-float", g.Point(np.array([float(x) for x in r["u"]] + [1.0]))), ("axis-float-scaled", g.Point(np.array([2.5 * x for x in r["u"]] + [2.5])))]
+                for name, axis in [("axis", g.Point(*r["u"])), ("axis-scaled", g.Point(np.array([2 * x for x in r["u"]] + [2])))] + long_axes + float_axes:
+                    keep = np.array(axis.array, copy=True)
                     tr = g.rotation(ang, axis=axis)
+                    if not np.array_equal(np.asarray(axis.array), keep):
+                        out.append(dict(site=f"rotation/3D/{name}/argument-unchanged", stratum=stratum, case={"angle": [c, s, h], "axis": r["u"]},
+                                        expected=keep.tolist(), observed=np.asarray(axis.array).tolist()))
                     mp, mm = mclass(tr, r["Mp"]), mclass(tr, r["Mm"])
                     if not (mp or mm):
                         out.append(dict(site=f"rotation/3D/{name}", stratum=stratum, case={"angle": [c, s, h], "axis": r["u"]},
@@ -89,11 +94,17 @@ def replay(recs):
                                     observed=np.asarray(tr.array).tolist()))
             elif t == "reflection":
                 hv = r["h"]
-                for name, mult in (("", 1), ("/scaled-representative", -2)):
+                for name, mult in (("", 1), ("/scaled-representative", -2), ("/float-representative", 1.0), ("/complex-representative", 0.5 + 0j)):
                     hobj = g.Line(np.array(hv) * mult) if r["d"] == 2 else g.Plane(np.array(hv) * mult)
+                    keep = np.array(hobj.array, copy=True)
                     tr = g.reflection(hobj)
                     bad = None if mclass(tr, r["M"]) else {"matrix": np.asarray(tr.array).tolist()}
                     bad = bad or images_ok(tr, r["img"], g)
+                    if not bad and not np.array_equal(np.asarray(hobj.array), keep):
+                        bad = {"the mirror passed to reflection() was changed to": np.asarray(hobj.array).tolist()}
+                    if not bad:         # the same mirror object used a second time
+                        tr2 = g.reflection(hobj)
+                        bad = None if mclass(tr2, r["M"]) else {"second reflection(h) with the same object": np.asarray(tr2.array).tolist()}
                     if bad:
                         out.append(dict(site=f"reflection/{r['d']}D{name}", stratum=stratum, case={"h": hv}, expected=r["M"], observed=bad))
             elif t == "from_points":
